@@ -464,6 +464,43 @@ def ckpt_restore(job):
             "problem_name": solver.problem.name, "n_states": int(solver.problem.n_states)}
 
 
+@handler("ckpt_follow")
+def ckpt_follow(job):
+    """One process, two solvers on the SAME checkpoint directory: the writer runs k1 sweeps, a follower is built (its
+    checkpoint manager is created now) and loads; the writer runs k2 more sweeps; the follower loads again (latest step).
+    A solver built by hand from the same directory afterwards is the comparison."""
+    _quiet()
+    import jax
+    jax.config.update("jax_enable_x64", True)
+    name = job["solver"]
+    cfg = dict(job["config"])
+    cfg.setdefault("verbose", 0)
+    d = cfg["checkpoint_dir"]
+    writer = make_solver(name, make_problem(job["problem"]), cfg)
+    obs_w = []
+    _apply_ops(writer, name, [["solve", int(job["k1"])]], obs_w)
+    if getattr(writer, "checkpoint_manager", None) is not None:
+        writer.checkpoint_manager.wait_until_finished()
+    follower = make_solver(name, make_problem(job["problem"]), cfg)
+    out = {}
+    try:
+        follower.load_checkpoint(d)
+        out["first"] = observe_full(follower, name)
+        _apply_ops(writer, name, [["solve", int(job["k2"])]], obs_w)
+        if getattr(writer, "checkpoint_manager", None) is not None:
+            writer.checkpoint_manager.wait_until_finished()
+        out["steps"] = _dir_listing(d)["steps"]
+        follower.load_checkpoint(d)
+        out["second"] = observe_full(follower, name)
+        fresh = make_solver(name, make_problem(job["problem"]), dict(cfg, checkpoint_dir=d + "_other", checkpoint_frequency=0))
+        fresh.load_checkpoint(d)
+        out["fresh"] = observe_full(fresh, name)
+    except Exception as e:  # noqa: BLE001
+        return {"raised": type(e).__name__, "message": str(e)[:300]}
+    out["writer"] = obs_w
+    return out
+
+
 # ----------------------------------------------------------------------------- C20
 PROBLEM_CLASSES = {
     "forest": ("mdpax.problems.forest", "Forest", "ForestConfig"),
